@@ -29,13 +29,16 @@
 (*   Bug_NoRescheduleAtEnd       the worker does not look for further work  *)
 (*                               (a request registered while it was busy    *)
 (*                               is never served)                           *)
-(*   Bug_SlotNotCleared          the worker leaves the served request in    *)
-(*                               the slot                                   *)
+(* (A fifth candidate - the worker leaves the served request in the slot -   *)
+(* was dropped after the self-test: the corresponding code change is benign  *)
+(* (the caller clears the slot itself when it leaves, the worker merely      *)
+(* serves the finished request again), and the model's counterexample was    *)
+(* an artifact of weak fairness on an intermittently free mutex.)            *)
 (***************************************************************************)
 EXTENDS Naturals, FiniteSets, TLC
 
 CONSTANTS Callers, Work, Rotations,
-          Bug_HoldRequestAcrossMerge, Bug_NotifyOne, Bug_NoRescheduleAtEnd, Bug_SlotNotCleared
+          Bug_HoldRequestAcrossMerge, Bug_NotifyOne, Bug_NoRescheduleAtEnd
 
 BG == "bg"
 WR == "wr"
@@ -166,7 +169,7 @@ BInstall ==
 \* third short section: take the request out of the slot, advance its begin key
 BFin ==
   /\ pc[BG] = "fin" /\ dbLock = BG /\ (reqLock[cur] = None \/ reqLock[cur] = BG)
-  /\ slot' = IF Bug_SlotNotCleared THEN slot ELSE None
+  /\ slot' = None
   /\ reqLock' = [reqLock EXCEPT ![cur] = None] /\ keepReq' = FALSE
   /\ Goto(BG, "end")
   /\ UNCHANGED <<dbLock, done, work, bgSched, chan, waiting, imm, rot, cur>>
